@@ -127,4 +127,40 @@ theorem pki_roundtrip (C : Cipher) (hC : CipherOK C) (kind : PkiKind) (payload p
 example : (pkiWrap ⟨fun _ x => x, fun _ x => x⟩ .privkey (List.replicate 32 7) [1, 2, 3] (List.replicate 8 9) 9999).1 = .badInput := by
   decide +kernel
 
+/-- ANNOUNCED LENGTH = WRITTEN LENGTH, for EVERY iteration count 10000 ≤ iter < 2^64 (not only the default): the
+length query of bpkiPrivkeyWrap / bpkiShareWrap (`epki == 0`; `pkiWrapLen`, a function of the payload size and of `iter`
+through the DER INTEGER iterCount: 2 content octets up to 32767, 3 up to 8388607, …) returns exactly the length of the
+container the second call writes — so a buffer of the announced size is neither overrun nor left partly unwritten, and
+(`pki_roundtrip`) Unwrap of exactly these octets returns the key. -/
+theorem pkiWrap_len (C : Cipher) (hC : CipherOK C) (kind : PkiKind) (payload pwd salt epki : Bytes) (iter : Nat)
+    (hsalt : salt.length = 8) (hiter : iter < 18446744073709551616)
+    (h : pkiWrap C kind payload pwd salt iter = (.ok, epki)) :
+    pkiWrapLen kind payload iter = (.ok, epki.length) := by
+  obtain ⟨_, hpc, _⟩ := pkiWrap_inv C hC kind payload pwd salt epki iter h
+  refine pkiWrap_len' C hC kind payload pwd salt epki iter hsalt hiter ?_ h
+  intro pki he
+  cases kind with
+  | privkey =>
+    have hk : payload.length = 24 ∨ payload.length = 32 ∨ payload.length = 48 ∨ payload.length = 64 := by
+      simp only [payloadCheck] at hpc
+      by_cases hb : payload.length ≠ 32 ∧ payload.length ≠ 24 ∧ payload.length ≠ 48 ∧ payload.length ≠ 64
+      · rw [if_pos hb] at hpc; cases hpc
+      · omega
+    have := Bee2V.C08.bpkiPrivkeyEnc_len payload pki hk he
+    omega
+  | share =>
+    have hk : payload.length = 17 ∨ payload.length = 25 ∨ payload.length = 33 := by
+      simp only [payloadCheck] at hpc
+      by_cases hb : (payload.length ≠ 17 ∧ payload.length ≠ 25 ∧ payload.length ≠ 33) ∨
+          (payload.headD 0).toNat = 0 ∨ (payload.headD 0).toNat > 16
+      · rw [if_pos hb] at hpc; cases hpc
+      · have := (not_or.mp hb).1; omega
+    have := Bee2V.C08.bpkiShareEnc_len payload pki hk he
+    omega
+/-- the announced length does depend on the iteration count: +1 octet at 32768, +1 at 8388608, … -/
+example : (pkiWrapLen .privkey (List.replicate 32 1) 10000) = (.ok, 160) ∧ (pkiWrapLen .privkey (List.replicate 32 1) 32767) = (.ok, 160) ∧
+    (pkiWrapLen .privkey (List.replicate 32 1) 32768) = (.ok, 161) ∧ (pkiWrapLen .privkey (List.replicate 32 1) 8388607) = (.ok, 161) ∧
+    (pkiWrapLen .privkey (List.replicate 32 1) 8388608) = (.ok, 162) ∧
+    (pkiWrapLen .share (5 :: List.replicate 16 1) 18446744073709551615) = (.ok, 151) := by decide +kernel
+
 end Bee2V.C17
